@@ -695,7 +695,8 @@ class HistoryGen:
                     k2 = r.weighted([("sat", 2), ("probe", 3), ("eval", 4), ("min", 2), ("max", 2), ("solution", 2), ("batch_eval", 1)])
                     q = self.query_op(k2, hi, h)
                     if "e" in q and q["e"][0] in ("var", "const") and r.chance(60) and q["op"] in ("eval", "min", "max"):
-                        q["e"] = self.egf(h).bv(width_of(q["e"], self.vars), 1)
+                        w_ = width_of(q["e"], self.vars)
+                        q["e"] = self.egf(h).sexpr(1) if w_ == -1 else self.egf(h).bv(w_, 1)
                     asked.append(q)
                     first = len(self.ops)
                     self.emit(q)
@@ -1095,6 +1096,7 @@ class HistoryGen:
             "reuse": r.chance(p.get("reuse_pct", 25)),
             "lru": r.choice(p.get("lru_sizes", [4, 16, 64, 10000, 10000])),
             "salt": derive(self.seed, "salt") & 0xFFFFFFFF,
+            **({"z3_rlimit": p["z3_rlimit"]} if p.get("z3_rlimit") else {}),
         }
 
     def generate(self):
@@ -1264,9 +1266,42 @@ PROFILES = {
     "C11str": {   # string histories: finite domains per string variable, so the enumeration reference stays exact
         "frontends": [("SolverStrings", 5), ("SolverCacheless", 1)],
         "var_shapes": STR_SHAPES,
+        "z3_rlimit": 4000000,
         "length": (3, 25),
         "weights": {"simplify": 0, "min": 3, "max": 3, "exhaust_batch": 0, "late_unsat": 0, "backend_downsize": 2, "branch": 7},
         "reuse_pct": 35,
+    },
+    "C14str": {
+        "frontends": [("SolverStrings", 5), ("SolverCacheless", 1)],
+        "var_shapes": STR_SHAPES,
+        "z3_rlimit": 4000000,
+        "length": (5, 28),
+        "weights": {"simplify": 0, "branch": 14, "downsize": 4, "exhaust_batch": 0, "late_unsat": 0, "pickle": 1},
+        "pickle_modes": ["replace"],
+        "never_swarm_out": ("branch",),
+        "sweep_pct": 70,
+        "echo_pct": 30,
+        "max_handles": 6,
+        "reuse_pct": 35,
+    },
+    "C18str": {
+        "frontends": [("SolverStrings", 5), ("SolverCacheless", 1)],
+        "var_shapes": STR_SHAPES,
+        "z3_rlimit": 4000000,
+        "length": (4, 24),
+        "weights": {"simplify": 0, "pickle": 14, "pickle_expr": 5, "branch": 6, "exhaust_batch": 0, "late_unsat": 0},
+        "never_swarm_out": ("pickle",),
+        "max_handles": 6,
+    },
+    "C17str": {
+        "frontends": [("SolverStrings", 5), ("SolverCacheless", 1)],
+        "var_shapes": STR_SHAPES,
+        "z3_rlimit": 4000000,
+        "length": (4, 16),
+        "fault_enum": True,
+        "weights": {"simplify": 0, "branch": 8, "forget": 0, "gc": 0, "exhaust_batch": 0, "late_unsat": 0},
+        "extra_pct": 20,
+        "max_positions": 15,
     },
     "C11": {
         "frontends": [("Solver", 6), ("SolverCacheless", 2), ("SolverStrings", 1)],
